@@ -44,6 +44,13 @@ THEOREMS = [
     "SleapVerif.C19.artefacts_complete",
     "SleapVerif.C19.artefacts_complete_any_epochs",
     "SleapVerif.C19.train_total",
+    "SleapVerif.C19.no_key_at_any_crash_point_reuse",
+    "SleapVerif.C19.artefacts_complete_reuse",
+    "SleapVerif.C19.train_total_reuse",
+    "SleapVerif.C19.keyFixed_fresh_eq_repaired",
+    "SleapVerif.C19.reuse_bottomup_raises_counterexample",
+    "SleapVerif.C19.keyFixed_reuse_partial",
+    "SleapVerif.C19.keyFixed_reuse_no_key",
     "SleapVerif.C19.repair_changes_only_key_bits",
     "SleapVerif.C19.key_persisted_counterexample",
     "SleapVerif.C19.asIs_initial_config_leaks_at_every_crash_point",
@@ -748,7 +755,8 @@ def check_case(chk: Check, case, rec=None):
             if op == "tracer":
                 return flags_line(op, ver, case, rounds)
             return flags_line(op, ver, case["run1"], rec["rounds1"]) + " " + flags_line("", "", case, rounds).strip()
-        lines = [l2("tracer", "repaired"), l2("fsr", "repaired"), l2("tracer", "asis"), l2("fsr", "asis")]
+        lines = [l2("tracer", "repaired"), l2("fsr", "repaired"), l2("tracer", "asis"), l2("fsr", "asis"),
+                 l2("tracer", "keyfixed"), l2("fsr", "keyfixed")]
     else:
         lines = [flags_line("trace", "repaired", case, rounds), flags_line("fs", "repaired", case, rounds),
                  flags_line("trace", "asis", case, rounds), flags_line("fs", "asis", case, rounds)]
@@ -771,6 +779,18 @@ def check_case(chk: Check, case, rec=None):
     bad = oracle(rec)
     if ok_rep and not bad:
         return rec, "repaired"
+    slim0 = {k: rec[k] for k in ("case", "trace", "fs", "exception", "final", "rounds", "ckpt_name")}
+    if len(out) == 6:
+        # F-C19c: the tree with only the key / run_id repair (`Version.keyFixed`) differs from the repaired
+        # model exactly on bottom-up runs that re-use chunks, where it raises while building the datasets
+        kf_t, kf_fs = out[4].split()[1:], [s.strip() for s in out[5][3:].split("|")]
+        ok_kf, _ = matches_model(rec, kf_t, kf_fs)
+        if ok_kf and not ok_rep and rec["exception"] and rec["exception"]["class"] == "AttributeError" \
+                and "skeletons" in rec["exception"]["msg"] and not any(b["hits"] for b in rec["boundaries"]):
+            chk.tag("behaves_as_keyFixed_model")
+            for what, detail in bad:
+                chk.fail(f"C19 fails: {detail}", case, slim0, ["bottomup_reuse_chunks_raises"])
+            return rec, "keyfixed"
     ok_asis, why_asis = matches_model(rec, asis_t, asis_fs)
     slim = {k: rec[k] for k in ("case", "trace", "fs", "exception", "final", "rounds", "ckpt_name")}
     slim["leaking_boundaries"] = [b for b in rec["boundaries"] if b["hits"]][:6]
@@ -845,10 +865,12 @@ def main(chk: Check):
                             rng.random() < 0.5, rng.random() < 0.5, sep=rng.random() < 0.7, seed=rng.randrange(2**31)))
         cases.append(mk(rng.choice(MODELS), rng.choice(FWS), rng.random() < 0.5, 1, 0, 1, epochs=rng.choice([2, 3]),
                         seed=rng.randrange(2**31), lr=rng.choice([1e-4, 0.05, 0.5])))
-        # two-run histories (use_existing_chunks): deletion requested after re-use, and a random one
-        cases.append(mk_reuse(rng, rng.choice(MODELS), rng.random() < 0.5, rng.random() < 0.5, rng.random() < 0.5, 1))
-        cases.append(mk_reuse(rng, rng.choice(MODELS), rng.random() < 0.5, rng.random() < 0.5, rng.random() < 0.5,
-                              rng.random() < 0.5))
+        # two-run histories (use_existing_chunks): deletion requested after re-use for two different model types
+        # (so at least one is not the bottom-up model of F-C19c), and one history that keeps the chunks
+        ms2 = rng.sample(MODELS, 2)
+        for m in ms2:
+            cases.append(mk_reuse(rng, m, rng.random() < 0.5, rng.random() < 0.5, rng.random() < 0.5, 1))
+        cases.append(mk_reuse(rng, rng.choice(MODELS), rng.random() < 0.5, rng.random() < 0.5, rng.random() < 0.5, 0))
     verdicts = {}
     for i, case in enumerate(cases):
         rec, verdict = check_case(chk, case)
@@ -865,6 +887,12 @@ def main(chk: Check):
     v, rec = verdicts[1]
     chk.known_replay("F-C19b", still_fails=(pinned and v == "asis" and bool(rec["exception"])),
                      detail="witness run: " + ("completes" if v == "repaired" else f"behaves as {v}"))
+    wc = next((f.get("witness") for f in chk.known if f["id"] == "F-C19c"), None)
+    if wc is not None:
+        wc = {k: v for k, v in wc.items() if k != "expect"}
+        rec, v = check_case(chk, wc)
+        chk.known_replay("F-C19c", still_fails=(v == "keyfixed" or bool(rec["exception"])),
+                         detail="witness history: run 2 " + ("completes" if v == "repaired" else f"behaves as {v}"))
     chk.extra["runs_matching_repaired_model"] = sum(1 for v, _ in verdicts.values() if v == "repaired")
     chk.extra["runs_matching_asIs_model"] = sum(1 for v, _ in verdicts.values() if v == "asis")
 
@@ -893,10 +921,14 @@ if __name__ == "__main__":
             "would not be seen; bytes written by Lightning/wandb internals are scanned, not modelled",
             "wandb offline mode with wandb_mode='offline' in the config: `wandb.login(key)` itself is never executed (no network)",
         ],
-        rule="flag grid model(4) x framework(2) x wandb x ckpt x structured/plain x delete_chunks (quick: 2 witnesses + 4 covering "
-             "+ 2 random + 1 two-epoch run; thorough: all 128 + 8 multi-epoch), chunk dir apart from / inside the checkpoint dir; "
-             "distinct = distinct flag tuple; every run is non-trivial (real 1-step training, every write boundary scanned)",
-        assumptions=["single process, rank 0 (get_dist_rank() is None)", "use_existing_chunks = False; litdata framework is outside "
+        rule="flag grid model(4) x framework(2) x wandb x ckpt x structured/plain x delete_chunks, fresh runs, plus two-run "
+             "histories (run 1 keeps its chunks, run 2 has use_existing_chunks=True on the same np_chunks_path with its own "
+             "wandb/ckpt/structured/delete flags). quick: 2 former-finding witnesses + 4 covering + 2 random + 1 multi-epoch "
+             "fresh runs + 3 two-run histories (2 with deletion requested, distinct model types); thorough: all 128 fresh + 64 histories (grid x reuse) + 8 multi-epoch; chunk dir "
+             "apart from / inside the checkpoint dir; distinct = distinct flag tuple (incl. fresh/reuse); every run is "
+             "non-trivial (real 1-step training, every write boundary scanned)",
+        assumptions=["single process, rank 0 (get_dist_rank() is None)", "use_existing_chunks only with the chunk framework and chunks left by an earlier "
+                     "run of the same model type (anything else is rejected by ModelTrainer.__init__); litdata framework is outside "
                      "the property's quantifier", "the key is present in the supplied config in every run"],
     )
     run_check(chk, main, replay)
